@@ -55,24 +55,59 @@ type Table struct {
 // delete the file.
 var tableFileRefs = struct {
 	mu   sync.Mutex
-	refs map[string]int
-}{refs: make(map[string]int)}
+	refs map[string]*tableFileRef
+}{refs: make(map[string]*tableFileRef)}
 
-func retainTableFile(uri string) {
-	tableFileRefs.mu.Lock()
-	defer tableFileRefs.mu.Unlock()
-	tableFileRefs.refs[uri]++
+type tableFileRef struct {
+	count int
+	// Ownership checks of the objects that were loaded from a checkpoint
+	// document. They outlive their object: whichever object is collected last
+	// must not delete a file that another instance may share.
+	guards []func() (bool, error)
 }
 
-// releaseTableFile returns true when no other Table object represents the file.
-func releaseTableFile(uri string) (last bool) {
+func retainTableFile(uri string, guard func() (bool, error)) {
 	tableFileRefs.mu.Lock()
 	defer tableFileRefs.mu.Unlock()
-	tableFileRefs.refs[uri]--
-	if tableFileRefs.refs[uri] > 0 {
-		return false
+	ref := tableFileRefs.refs[uri]
+	if ref == nil {
+		ref = &tableFileRef{}
+		tableFileRefs.refs[uri] = ref
+	}
+	ref.count++
+	if guard != nil {
+		ref.guards = append(ref.guards, guard)
+	}
+}
+
+// releaseTableFile returns true when no other Table object represents the file
+// along with the ownership checks that must all agree before it is deleted.
+func releaseTableFile(uri string) (last bool, guards []func() (bool, error)) {
+	tableFileRefs.mu.Lock()
+	defer tableFileRefs.mu.Unlock()
+	ref := tableFileRefs.refs[uri]
+	if ref == nil {
+		return true, nil
+	}
+	ref.count--
+	if ref.count > 0 {
+		return false, nil
 	}
 	delete(tableFileRefs.refs, uri)
+	return true, ref.guards
+}
+
+func tableFileGuardsAllowDelete(uri string, guards []func() (bool, error)) bool {
+	for _, guard := range guards {
+		canDelete, err := guard()
+		if err != nil {
+			slog.Error("failed determining exclusive ownership, not deleting", "err", err, "uri", uri)
+			return false
+		}
+		if !canDelete {
+			return false
+		}
+	}
 	return true
 }
 
@@ -89,9 +124,10 @@ func NewTable(file storage.File) *Table {
 		deleteFunc func() error
 		uri        string
 	}
-	retainTableFile(file.URI())
+	retainTableFile(file.URI(), nil)
 	runtime.AddCleanup(t, func(p CleanupParams) {
-		if !releaseTableFile(p.uri) {
+		last, guards := releaseTableFile(p.uri)
+		if !last || !tableFileGuardsAllowDelete(p.uri, guards) {
 			return
 		}
 		if err := p.deleteFunc(); err != nil {
@@ -185,22 +221,16 @@ func NewTableFromDocument(fs storage.FileSystem, dataOwnership kv.DataOwnership,
 		uri:           doc.URI,
 	}
 
-	retainTableFile(doc.URI)
+	retainTableFile(doc.URI, func() (bool, error) {
+		return params.dataOwnership.ExclusivelyOwnsTable(params.uri, params.startKey, params.endKey)
+	})
 	runtime.AddCleanup(t, func(p CleanupParams) {
-		if !releaseTableFile(p.uri) {
+		last, guards := releaseTableFile(p.uri)
+		if !last || !tableFileGuardsAllowDelete(p.uri, guards) {
 			return
 		}
-		canDelete, err := p.dataOwnership.ExclusivelyOwnsTable(p.uri, p.startKey, p.endKey)
-		if err != nil {
-			slog.Error("failed determining exclusive ownership, not deleting", "err", err, "uri", p.uri)
-			return
-		}
-
-		if canDelete {
-			err := p.deleteFunc()
-			if err != nil {
-				slog.Error("failed deleting table", "uri", p.uri, "err", err)
-			}
+		if err := p.deleteFunc(); err != nil {
+			slog.Error("failed deleting table", "uri", p.uri, "err", err)
 		}
 	}, params)
 
